@@ -118,6 +118,12 @@ impl Parse for JoinInputDefault {
                         "custom_joiner should be a function, closure or macro which can be called with branches",
                     ));
                 }
+                // A closure binds weaker than the call it is used in (`|a, b| (a, b)(x, y)`), so parenthesize it.
+                let custom_joiner = if syn::parse2::<syn::ExprClosure>(custom_joiner.clone()).is_ok() {
+                    quote::quote! { (#custom_joiner) }
+                } else {
+                    custom_joiner
+                };
                 join.custom_joiner = Some(custom_joiner);
             }
 
